@@ -14,6 +14,7 @@ type objState struct {
 	Keys  []string
 	Props map[string]string
 	Bang  bool // the battery itself flagged a route disagreement ("!...")
+	Unord bool // key order is documented to be unstable for this object (Go map): lists are rendered sorted
 }
 
 func parseDump(d string) []objState {
@@ -30,6 +31,8 @@ func parseDump(d string) []objState {
 		for _, tok := range strings.Split(line[i+1:len(line)-1], " ") {
 			switch {
 			case tok == "":
+			case tok == "u1":
+				st.Unord = true
 			case tok[0] == 'x' && len(tok) == 2 && st.Keys == nil && st.Proto == "":
 				st.Ext = tok[1] == '1'
 			case tok[0] == 'p' && st.Proto == "" && (strings.HasPrefix(tok, "p#") || strings.HasPrefix(tok, "pnull")):
@@ -118,7 +121,7 @@ func monitor(oldD, newD string) []string {
 			}
 			seen[k] = true
 			rk, idx := keyRank(k)
-			if rk < lastRank || (rk == 0 && lastRank == 0 && idx <= lastIdx) {
+			if !n.Unord && (rk < lastRank || (rk == 0 && lastRank == 0 && idx <= lastIdx)) {
 				res = append(res, n.Name+": own keys out of order")
 			}
 			lastRank, lastIdx = rk, idx
